@@ -112,17 +112,17 @@ func (v *collator_[V]) GetMaximum() int {
 // Public
 
 func (v *collator_[V]) CompareValues(first V, second V) bool {
-	// Restore the traversal depth even if the comparison panics.
-	var depth = v.depth_
-	defer func() { v.depth_ = depth }()
-	return v.compareValues(ref.ValueOf(first), ref.ValueOf(second))
+	// The traversal depth belongs to this call: a collator may be shared by
+	// several collections, sorters and goroutines.
+	var traversal = &collator_[V]{class_: v.class_, maximum_: v.maximum_}
+	return traversal.compareValues(ref.ValueOf(first), ref.ValueOf(second))
 }
 
 func (v *collator_[V]) RankValues(first V, second V) Rank {
-	// Restore the traversal depth even if the ranking panics.
-	var depth = v.depth_
-	defer func() { v.depth_ = depth }()
-	return v.rankValues(ref.ValueOf(first), ref.ValueOf(second))
+	// The traversal depth belongs to this call: a collator may be shared by
+	// several collections, sorters and goroutines.
+	var traversal = &collator_[V]{class_: v.class_, maximum_: v.maximum_}
+	return traversal.rankValues(ref.ValueOf(first), ref.ValueOf(second))
 }
 
 // Private
